@@ -507,12 +507,7 @@ func (b *SMT) Box(t types.Type, v string) string {
 	un := "unbox_" + sanitize(s)
 	b.DeclFun(fn, []string{s}, "Int")
 	b.DeclFun(un, []string{"Int"}, s)
-	key := fn + "|" + v
-	if !b.inst[key] {
-		b.inst[key] = true
-		b.Assert(eq(app(un, app(fn, v)), v))
-	}
-	return app(fn, v)
+	return b.axiom(fn, s, v, func(v string) string { return eq(app(un, app(fn, v)), v) })
 }
 
 func (b *SMT) Unbox(t types.Type, pl string) string {
@@ -550,41 +545,52 @@ func (b *SMT) Sentinel(pkgPath, name string) string {
 	return c
 }
 
-// Ground axioms for library functions, instantiated once per distinct argument term.
-func (b *SMT) Be64(x string) string {
-	t := app("be64", x)
+// Ground axioms for library functions, instantiated once per distinct argument term. When the argument
+// mentions a bound variable (inside a quantifier of a contract) the axiom is emitted once in quantified
+// form with the application as trigger.
+func (b *SMT) axiom(fn, argSort, x string, ax func(x string) string) string {
+	t := app(fn, x)
+	if strings.Contains(x, "qv!") {
+		k := "forall:" + fn
+		if !b.inst[k] {
+			b.inst[k] = true
+			b.Assert("(forall ((ax!x " + argSort + ")) (! " + ax("ax!x") + " :pattern ((" + fn + " ax!x))))")
+		}
+		return t
+	}
 	if !b.inst[t] {
 		b.inst[t] = true
-		b.Assert(and(eq(app("str.len", t), "8"), implies(and("(<= 0 "+x+")", "(< "+x+" "+two64+")"), eq(app("unbe64", t), x))))
+		b.Assert(ax(x))
 	}
 	return t
+}
+
+func (b *SMT) Be64(x string) string {
+	return b.axiom("be64", "Int", x, func(x string) string {
+		t := app("be64", x)
+		return and(eq(app("str.len", t), "8"), implies(and("(<= 0 "+x+")", "(< "+x+" "+two64+")"), eq(app("unbe64", t), x)))
+	})
 }
 
 func (b *SMT) UnBe64(s string) string {
-	t := app("unbe64", s)
-	if !b.inst[t] {
-		b.inst[t] = true
-		b.Assert(and("(<= 0 "+t+")", "(< "+t+" "+two64+")", implies(eq(app("str.len", s), "8"), eq(app("be64", t), s))))
-	}
-	return t
+	return b.axiom("unbe64", "String", s, func(s string) string {
+		t := app("unbe64", s)
+		return and("(<= 0 "+t+")", "(< "+t+" "+two64+")", implies(eq(app("str.len", s), "8"), eq(app("be64", t), s)))
+	})
 }
 
 func (b *SMT) Hash(fn, x string) string {
-	t := app(fn, x)
-	if !b.inst[t] {
-		b.inst[t] = true
-		b.Assert(and(eq(app("str.len", t), "32"), eq(app("un"+fn, t), x)))
-	}
-	return t
+	return b.axiom(fn, "String", x, func(x string) string {
+		t := app(fn, x)
+		return and(eq(app("str.len", t), "32"), eq(app("un"+fn, t), x))
+	})
 }
 
 var digitsRe = `(re.+ (re.range "0" "9"))`
 
 func (b *SMT) Dec(x string) string {
-	t := app("dec", x)
-	if !b.inst[t] {
-		b.inst[t] = true
-		b.Assert(implies("(>= "+x+" 0)", and(eq(app("undec", t), x), app("isdec", t), "(str.in_re "+t+" "+digitsRe+")", "(<= 1 (str.len "+t+"))", implies("(< "+x+" "+two64+")", "(<= (str.len "+t+") 20)"))))
-	}
-	return t
+	return b.axiom("dec", "Int", x, func(x string) string {
+		t := app("dec", x)
+		return implies("(>= "+x+" 0)", and(eq(app("undec", t), x), app("isdec", t), "(str.in_re "+t+" "+digitsRe+")", "(<= 1 (str.len "+t+"))", implies("(< "+x+" "+two64+")", "(<= (str.len "+t+") 20)")))
+	})
 }
